@@ -827,7 +827,7 @@ def _merge_alternatives(ev, cell, vals, problems, k):
     return first
 
 
-def transient(m, ctor, args, K, reg=None):
+def transient(m, ctor, args, K, reg=None, probe=None):
     """Abstract execution in the linear-form domain from the constructor's initial state: the k-th delivered value is
     the symbol u<k>; integer cells, lengths and presence are concrete (they are functions of the configuration and of k
     only), float cells are linear forms over u0..u<k>.  Returns (outputs, problems): outputs[k] is the Form reported by
@@ -914,6 +914,9 @@ def transient(m, ctor, args, K, reg=None):
             problems.append('step %d: the exit taken depends on the data (%s)' % (k, tstr(next((c for c in feas_exits[0].pc if isinstance(c, tuple) and c and c[0] != 'inloop' and ev.ev(c) is not True), ('?',)))[:80]))
             datadep_exit = True
             feas_exits = feas_exits[:1]
+        if probe is not None:
+            # the caller examines intermediate terms of this step: evaluator over the entry state (current input = 'u')
+            probe(k, ev, feas_exits[0])
         cand = []
         for ex in feas_exits:
             ns = dict(state)
